@@ -1,6 +1,7 @@
 package load
 
 import (
+	_ "embed"
 	"go/types"
 	"sort"
 	"strings"
@@ -71,6 +72,73 @@ func (p *Prog) detectRenames(all map[*ssa.Function]bool) []Renamed {
 			}
 		}
 	}
+	// several functions of one shape renamed at once (callbacks, handlers): pair them by what they do. A pair is taken
+	// when it is the best match for BOTH sides, clearly (similarity >= 0.6 and 0.08 ahead of either side's runner-up).
+	baseFP := baselineFingerprints()
+	volatile := map[string]bool{}
+	for _, b := range missing {
+		volatile[b] = true
+	}
+	for _, f := range fresh {
+		volatile[FuncName(f)] = true
+	}
+	ignore := func(tok string) bool {
+		if !strings.HasPrefix(tok, "call:") {
+			return false
+		}
+		n := strings.TrimPrefix(tok, "call:")
+		n = strings.ReplaceAll(strings.ReplaceAll(n, Module+"/", ""), Module, "dc4bc")
+		return volatile[n]
+	}
+	freshFP := map[*ssa.Function]map[string]int{}
+	score := func(b string, f *ssa.Function) float64 {
+		if freshFP[f] == nil {
+			freshFP[f] = fingerprint(f)
+		}
+		return similarity(baseFP[b], freshFP[f], ignore)
+	}
+	best := func(xs []float64) (int, float64, float64) {
+		bi, b1, b2 := -1, -1.0, -1.0
+		for i, x := range xs {
+			if x > b1 {
+				bi, b2, b1 = i, b1, x
+			} else if x > b2 {
+				b2 = x
+			}
+		}
+		return bi, b1, b2
+	}
+	for _, b := range missing {
+		cs := candOf[b]
+		if len(cs) == 1 && len(claimed[cs[0]]) == 1 {
+			continue // handled below (unique by shape)
+		}
+		if len(cs) == 0 || baseFP[b] == nil {
+			continue
+		}
+		var sc []float64
+		for _, f := range cs {
+			sc = append(sc, score(b, f))
+		}
+		bi, s1, s2 := best(sc)
+		if bi < 0 || s1 < 0.6 || s1-s2 < 0.08 {
+			candOf[b] = nil
+			continue
+		}
+		f := cs[bi]
+		// f's best baseline must be b, clearly
+		var back []float64
+		for _, b2 := range claimed[f] {
+			back = append(back, score(b2, f))
+		}
+		bj, t1, t2 := best(back)
+		if bj < 0 || claimed[f][bj] != b || t1-t2 < 0.08 {
+			candOf[b] = nil
+			continue
+		}
+		candOf[b] = []*ssa.Function{f}
+		claimed[f] = []string{b}
+	}
 	var out []Renamed
 	for _, b := range missing {
 		if len(candOf[b]) != 1 || len(claimed[candOf[b][0]]) != 1 {
@@ -89,4 +157,290 @@ func (p *Prog) detectRenames(all map[*ssa.Function]bool) []Renamed {
 		p.renamed[b] = f
 	}
 	return out
+}
+
+//go:embed baseline_fields.txt
+var baselineFields string
+
+// RenamedField records a struct field analysed under the name it had on the reference tree.
+type RenamedField struct {
+	Type, Old, New string
+}
+
+// structFieldsOf lists the struct types declared in the module packages: "pkgpath.Type" -> fields (name, type, tag).
+func structFieldsOf(pkgs []*types.Package) map[string][][3]string {
+	out := map[string][][3]string{}
+	for _, pk := range pkgs {
+		sc := pk.Scope()
+		for _, n := range sc.Names() {
+			tn, ok := sc.Lookup(n).(*types.TypeName)
+			if !ok || tn.IsAlias() {
+				continue
+			}
+			st, ok := tn.Type().Underlying().(*types.Struct)
+			if !ok {
+				continue
+			}
+			var fs [][3]string
+			for i := 0; i < st.NumFields(); i++ {
+				fs = append(fs, [3]string{st.Field(i).Name(), st.Field(i).Type().String(), st.Tag(i)})
+			}
+			out[pk.Path()+"."+n] = fs
+		}
+	}
+	return out
+}
+
+func dumpStructFields(pkgs []*types.Package) string {
+	m := structFieldsOf(pkgs)
+	var keys []string
+	for k := range m {
+		keys = append(keys, k)
+	}
+	sort.Strings(keys)
+	var b strings.Builder
+	b.WriteString("# struct types of the reference tree: type<TAB>(field<TAB>type<TAB>tag)* — see rename.go\n")
+	for _, k := range keys {
+		b.WriteString(k)
+		for _, f := range m[k] {
+			b.WriteString("\t" + f[0] + "\t" + f[1] + "\t" + strings.ReplaceAll(f[2], "\t", " "))
+		}
+		b.WriteString("\n")
+	}
+	return b.String()
+}
+
+// detectFieldRenames: rules name struct fields (…PubPolyBz, …BatchID, the mutex of a repository). A field that was only
+// renamed — same struct, same type, same tag, and either the same position in a struct of unchanged length or the unique
+// candidate among the fields that disappeared/appeared — is analysed under its reference name: the *types.Var is given
+// its old name, so access paths, FieldOf(...).Name() and the JSON walk all see the reference spelling. (The wire name
+// is the tag or — for untagged fields — the Go name: an untagged EXPORTED field of a type that is marshalled changes
+// its wire name when renamed; such a rename is not behaviour-preserving and is deliberately not followed.)
+func detectFieldRenames(pkgs []*types.Package) []RenamedField {
+	base := map[string][][3]string{}
+	for _, l := range strings.Split(baselineFields, "\n") {
+		if strings.TrimSpace(l) == "" || strings.HasPrefix(l, "#") {
+			continue
+		}
+		parts := strings.Split(l, "\t")
+		var fs [][3]string
+		for i := 1; i+2 < len(parts); i += 3 {
+			fs = append(fs, [3]string{parts[i], parts[i+1], parts[i+2]})
+		}
+		base[parts[0]] = fs
+	}
+	var out []RenamedField
+	for _, pk := range pkgs {
+		sc := pk.Scope()
+		for _, n := range sc.Names() {
+			tn, ok := sc.Lookup(n).(*types.TypeName)
+			if !ok || tn.IsAlias() {
+				continue
+			}
+			st, ok := tn.Type().Underlying().(*types.Struct)
+			if !ok {
+				continue
+			}
+			key := pk.Path() + "." + n
+			bf, ok := base[key]
+			if !ok {
+				continue
+			}
+			cur := map[string]int{}
+			for i := 0; i < st.NumFields(); i++ {
+				cur[st.Field(i).Name()] = i
+			}
+			was := map[string]int{}
+			for i, f := range bf {
+				was[f[0]] = i
+			}
+			followable := func(i int, old [3]string) bool {
+				f := st.Field(i)
+				if f.Type().String() != old[1] || strings.ReplaceAll(st.Tag(i), "\t", " ") != old[2] {
+					return false
+				}
+				// an untagged exported field's Go name is its wire name
+				if f.Exported() && !strings.Contains(st.Tag(i), "json:") && old[0] != "" && strings.ToUpper(old[0][:1]) == old[0][:1] {
+					return false
+				}
+				return !f.Embedded()
+			}
+			var gone, fresh []int
+			for i, f := range bf {
+				if _, still := cur[f[0]]; !still {
+					gone = append(gone, i)
+				}
+			}
+			for i := 0; i < st.NumFields(); i++ {
+				if _, had := was[st.Field(i).Name()]; !had {
+					fresh = append(fresh, i)
+				}
+			}
+			for _, gi := range gone {
+				var cands []int
+				for _, fi := range fresh {
+					if followable(fi, bf[gi]) {
+						cands = append(cands, fi)
+					}
+				}
+				pick := -1
+				if len(cands) == 1 {
+					pick = cands[0]
+				} else if len(cands) > 1 && len(bf) == st.NumFields() {
+					for _, ci := range cands {
+						if ci == gi {
+							pick = ci
+						}
+					}
+				}
+				if pick < 0 {
+					continue
+				}
+				// the candidate must not be claimed by another vanished field of the same shape (unless by position)
+				claims := 0
+				for _, g2 := range gone {
+					if followable(pick, bf[g2]) {
+						claims++
+					}
+				}
+				if claims > 1 && !(len(bf) == st.NumFields() && pick == gi) {
+					continue
+				}
+				v := st.Field(pick)
+				out = append(out, RenamedField{Type: key, Old: bf[gi][0], New: v.Name()})
+				setUnexported(v, bf[gi][0], "object", "name")
+				var nf []int
+				for _, fi := range fresh {
+					if fi != pick {
+						nf = append(nf, fi)
+					}
+				}
+				fresh = nf
+			}
+		}
+	}
+	return out
+}
+
+//go:embed baseline_fp.txt
+var baselineFP string
+
+// fingerprint: what a function calls, which constants it mentions and which fields it touches — enough to tell apart
+// functions that share a signature (the FSM callbacks, the airgapped handlers) when several of them are renamed at once.
+func fingerprint(f *ssa.Function) map[string]int {
+	fp := map[string]int{}
+	for _, b := range f.Blocks {
+		for _, in := range b.Instrs {
+			switch x := in.(type) {
+			case ssa.CallInstruction:
+				cc := x.Common()
+				if cc.IsInvoke() {
+					fp["invoke:"+cc.Method.Name()]++
+				} else if sc := cc.StaticCallee(); sc != nil {
+					fp["call:"+sc.String()]++
+				}
+			case *ssa.FieldAddr:
+				if st, ok := x.X.Type().Underlying().(*types.Pointer); ok {
+					if s, ok := st.Elem().Underlying().(*types.Struct); ok && x.Field < s.NumFields() {
+						fp["field:"+s.Field(x.Field).Name()]++
+					}
+				}
+			}
+			for _, op := range in.Operands(nil) {
+				if op == nil || *op == nil {
+					continue
+				}
+				if k, ok := (*op).(*ssa.Const); ok && k.Value != nil {
+					s := k.Value.ExactString()
+					if len(s) > 2 && len(s) < 60 && s != "true" && s != "false" {
+						fp["const:"+s]++
+					}
+				}
+			}
+		}
+	}
+	return fp
+}
+
+func dumpFingerprints(all map[*ssa.Function]bool) string {
+	var lines []string
+	for f := range all {
+		if !InModule(f) || f.Synthetic != "" || f.Parent() != nil {
+			continue
+		}
+		fp := fingerprint(f)
+		var toks []string
+		for t, n := range fp {
+			toks = append(toks, t+"#"+itoa(n))
+		}
+		sort.Strings(toks)
+		lines = append(lines, FuncName(f)+"\t"+strings.Join(toks, "\t"))
+	}
+	sort.Strings(lines)
+	return "# fingerprints of the reference tree's functions (callees, constants, fields) — see rename.go\n" + strings.Join(lines, "\n") + "\n"
+}
+
+func itoa(n int) string {
+	if n == 0 {
+		return "0"
+	}
+	s := ""
+	for n > 0 {
+		s = string(rune('0'+n%10)) + s
+		n /= 10
+	}
+	return s
+}
+
+func baselineFingerprints() map[string]map[string]int {
+	out := map[string]map[string]int{}
+	for _, l := range strings.Split(baselineFP, "\n") {
+		if strings.TrimSpace(l) == "" || strings.HasPrefix(l, "#") {
+			continue
+		}
+		parts := strings.Split(l, "\t")
+		fp := map[string]int{}
+		for _, t := range parts[1:] {
+			if i := strings.LastIndex(t, "#"); i > 0 {
+				n := 0
+				for _, ch := range t[i+1:] {
+					n = n*10 + int(ch-'0')
+				}
+				fp[t[:i]] = n
+			}
+		}
+		out[parts[0]] = fp
+	}
+	return out
+}
+
+// similarity: weighted Jaccard of two fingerprints, ignoring the tokens in `ignore` (calls to functions that are
+// themselves being matched: their names differ between the two trees by construction).
+func similarity(a, b map[string]int, ignore func(string) bool) float64 {
+	inter, union := 0, 0
+	seen := map[string]bool{}
+	for t, n := range a {
+		if ignore(t) {
+			continue
+		}
+		seen[t] = true
+		m := b[t]
+		if m < n {
+			inter += m
+			union += n
+		} else {
+			inter += n
+			union += m
+		}
+	}
+	for t, m := range b {
+		if ignore(t) || seen[t] {
+			continue
+		}
+		union += m
+	}
+	if union == 0 {
+		return 0
+	}
+	return float64(inter) / float64(union)
 }
